@@ -64,3 +64,186 @@ func TestProbe(t *testing.T) {
 	b, _ := os.ReadFile(vh.OutDir() + "/traces.ndjson")
 	fmt.Print(string(b))
 }
+
+// randomScenario draws a scenario and a counted fault script.
+func randomScenario(rng interface{ Intn(int) int }, n int) (Cfg, Faults, int) {
+	c := Cfg{Bad: []int{}}
+	c.Src0 = 1 + rng.Intn(4)
+	if rng.Intn(12) == 0 {
+		c.Src0 = 0
+	}
+	c.Growth = rng.Intn(3)
+	for i := 0; i < c.Src0+c.Growth; i++ {
+		if rng.Intn(3) == 0 {
+			c.Bad = append(c.Bad, i)
+		}
+	}
+	switch rng.Intn(3) {
+	case 0: // empty
+	case 1: // partial
+		if c.Src0 > 0 {
+			c.DestLen = 1 + rng.Intn(c.Src0)
+		}
+	default:
+		c.DestLen = c.Src0
+	}
+	switch rng.Intn(3) {
+	case 0:
+		c.DestInt = c.DestLen
+	case 1:
+		if c.DestLen > 0 {
+			c.DestInt = c.DestLen - 1
+		}
+	}
+	c.Batch = 1 + rng.Intn(3)
+	c.Fetchers = 1 + rng.Intn(2)
+	c.Submitters = 1 + rng.Intn(2)
+	if rng.Intn(6) == 0 {
+		c.Fetchers, c.Submitters = 3, 3
+	}
+	c.Chan = rng.Intn(3)
+	c.Cont = rng.Intn(2) == 0
+	if !c.Cont && rng.Intn(2) == 0 {
+		c.Start = -1
+	}
+	c.IDFunc = []string{"cert", "index"}[rng.Intn(2)]
+	c.Mode = []string{"run", "master", "master", "noop"}[rng.Intn(4)]
+	if c.Src0 >= 2 && rng.Intn(4) == 0 {
+		c.Forked = true
+		c.ForkAt = 1 + rng.Intn(c.Src0-1)
+		if c.DestLen > c.ForkAt {
+			c.DestInt = c.DestLen // what lies beyond the integrated prefix must not already contradict the fork
+		}
+	}
+	f := Faults{}
+	f.init()
+	restarts := 0
+	nf := rng.Intn(4)
+	if n%5 == 0 {
+		nf = 0
+	}
+	for k := 0; k < nf; k++ {
+		pass := 1 + rng.Intn(2)
+		start := 0
+		if c.Src0+c.Growth > 0 {
+			start = rng.Intn(c.Src0 + c.Growth)
+		}
+		key := fmt.Sprintf("%d:%d", pass, start)
+		switch rng.Intn(12) {
+		case 0, 1:
+			f.Fetch[key] = append(f.Fetch[key], 1) // short read
+		case 2:
+			f.Fetch[key] = append(f.Fetch[key], -1-rng.Intn(2))
+		case 3, 4, 5:
+			for j := 0; j <= rng.Intn(3); j++ {
+				f.Add[key] = append(f.Add[key], "ResourceExhausted")
+			}
+		case 6:
+			f.Add[key] = append(f.Add[key], []string{"Internal", "Unknown", "PermissionDenied", "InvalidArgument"}[rng.Intn(4)])
+		case 7:
+			switch rng.Intn(3) {
+			case 0:
+				f.Root[fmt.Sprint(pass)] = []string{"Unavailable"}
+			case 1:
+				f.STH[fmt.Sprint(pass)] = []int{500}
+			default:
+				f.Cons[fmt.Sprint(pass)] = []int{500}
+			}
+		case 8:
+			ek := fmt.Sprintf("%d:%d", pass, 1+rng.Intn(8))
+			f.Env[ek] = append(f.Env[ek], "revoke")
+		case 9:
+			ek := fmt.Sprintf("%d:%d", pass, 1+rng.Intn(8))
+			f.Env[ek] = append(f.Env[ek], "cancel")
+			restarts = rng.Intn(2)
+		case 10:
+			ek := fmt.Sprintf("%d:%d", pass, 2+rng.Intn(6))
+			f.Env[ek] = append(f.Env[ek], "grow")
+		default:
+			ek := fmt.Sprintf("%d:%d", pass, 1+rng.Intn(8))
+			f.Env[ek] = append(f.Env[ek], "integrate")
+		}
+	}
+	return c, f, restarts
+}
+
+func cloneFaults(f Faults) Faults {
+	b, _ := json.Marshal(f)
+	var g Faults
+	_ = json.Unmarshal(b, &g)
+	g.init()
+	return g
+}
+
+// TestTrace runs random scenarios on the real Controller and records the traces; the driver has
+// MigrillianTrace.tla validate traces.ndjson.  Runs in which the oracle-free monitor saw a quota reply
+// end the pass go to traces-quota.ndjson: the driver expects the specification to reject exactly those.
+func TestTrace(t *testing.T) {
+	n := vh.EnvInt("VERIF_TRACES", 60)
+	pool, err := NewPool(vh.Rand(20))
+	if err != nil {
+		t.Fatal(err)
+	}
+	rec, err := vh.NewRecorder("traces.ndjson")
+	if err != nil {
+		t.Fatal(err)
+	}
+	recQ, err := vh.NewRecorder("traces-quota.ndjson")
+	if err != nil {
+		t.Fatal(err)
+	}
+	rep := vh.NewReport("c20-trace", "random scenarios (source sizes/growth/unparsable entries, destination empty/partial/full, batch, fetchers, submitters, one-shot/continuous, Run/RunWhenMaster, honest/forked source, counted fault scripts) on the real Controller under synctest virtual time and -race; every AddSequencedLeaves request and the final destination map judged index by index against the source by reference code; traces validated by MigrillianTrace.tla; non-trivial = distinct set of observed behaviour kinds")
+	rng := vh.Rand(2020)
+	nq := 0
+	for i := 0; i < n; i++ {
+		c, f, restarts := randomScenario(rng, i)
+		tmp, err := vh.NewRecorder(fmt.Sprintf("trace-%d.tmp", i))
+		if err != nil {
+			t.Fatal(err)
+		}
+		sub := vh.NewReport("tmp", "")
+		var w *World
+		synctest.Test(t, func(t *testing.T) {
+			w = NewWorld(pool, c, cloneFaults(f), tmp, sub, i)
+			w.Seed = vh.Seed()
+			w.emit(map[string]any{"ev": "Reset", "cfg": c})
+			if _, err := w.Run(restarts); err != nil {
+				t.Fatal(err)
+			}
+		})
+		tmp.Close()
+		quota := false
+		for _, v := range sub.Violations {
+			if strings.HasPrefix(v.Fingerprint, "quota:ResourceExhausted") {
+				quota = true
+			}
+			rep.Violate(v.Fingerprint, v.What, map[string]any{"cfg": c, "faults": f, "restarts": restarts})
+		}
+		path := vh.OutDir() + fmt.Sprintf("/trace-%d.tmp", i)
+		lines, err := vh.LoadNDJSON[map[string]any](path)
+		if err != nil {
+			t.Fatal(err)
+		}
+		os.Remove(path)
+		dst := rec
+		if quota {
+			dst = recQ
+			nq++
+		}
+		for _, ev := range lines {
+			delete(ev, "seq")
+			dst.Emit(ev)
+		}
+		rep.Eval(kindsKey(w))
+		if i < 3 {
+			rep.Sample(map[string]any{"cfg": c, "faults": f})
+		}
+	}
+	rec.Close()
+	recQ.Close()
+	rep.Extra["events"] = rec.N + recQ.N
+	rep.Extra["traces_quota_aborted"] = nq
+	if err := rep.Write(); err != nil {
+		t.Fatal(err)
+	}
+}
